@@ -492,7 +492,12 @@ def _await_descriptor_upload(tor_protocol, onion, progress, await_all_uploads):
     # caller can do "d = _await_descriptor_upload()", then add the
     # service.
     yield tor_protocol.add_event_listener('HS_DESC', hs_desc)
-    yield uploaded
+    try:
+        yield uploaded
+    except Exception:
+        # every upload failed; we're not interested in more events
+        yield tor_protocol.remove_event_listener('HS_DESC', hs_desc)
+        raise
     yield tor_protocol.remove_event_listener('HS_DESC', hs_desc)
     # ensure we show "100%" at the end
     if progress:
